@@ -19,8 +19,9 @@ ASSUMPTIONS = ['guesses are observed by replacing the print_guess attribute of t
 NSHARDS = 16
 
 A_VARIANTS = {
-    1: [[(.5, ['a']), (.25, ['b', 'c'])], [(1.0, ['é'])]],
-    2: [[(.5, ['ab', 'cd']), (.25, ['éf'])]],
+    1: [[(.5, ['a']), (.25, ['b', 'c'])], [(1.0, ['é'])], [(1.0, ['\u00df'])]],
+    # letters whose upper case is longer than one character (sharp s, j-caron, fi ligature): masks are applied letter by letter
+    2: [[(.5, ['ab', 'cd']), (.25, ['éf'])], [(.5, ['a\u00df', '\u00dfa']), (.25, ['\u01f0b', '\ufb01x'])]],
     3: [[(1.0, ['xyz', 'ябв'])]],
 }
 D1 = [(.5, ['1', '2']), (.25, ['3'])]
@@ -72,10 +73,10 @@ def mem_cases(tier):
                 full.append('C' + r[1:])
         need1 = 'C1' in full
         need2 = 'C2' in full
-        for a1 in (A_VARIANTS[1] if 'A1' in full else [None]):
+        for a1, a2 in [(x, y) for x in (A_VARIANTS[1] if 'A1' in full else [None]) for y in (A_VARIANTS[2] if 'A2' in full else [None])]:
             for c1 in (c1s if need1 else [None]):
                 for c2 in (c2s if need2 else [None]):
-                    types = {'A1': a1 or A_VARIANTS[1][0], 'A2': A_VARIANTS[2][0], 'A3': A_VARIANTS[3][0],
+                    types = {'A1': a1 or A_VARIANTS[1][0], 'A2': a2 or A_VARIANTS[2][0], 'A3': A_VARIANTS[3][0],
                              'C1': c1 or c1s[0], 'C2': c2 or c2s[0], 'C3': c3,
                              'D1': D1, 'D2': D2, 'O1': O1, 'O2': O2}
                     yield s, full, types
